@@ -1177,7 +1177,7 @@ class PerturbedDroplet3D(PerturbedDropletBase):
                 l, _ = spherical.spherical_index_lm(k)
                 hk = (l**2 + l - 2) / 2
                 correction += a * hk * Yk(k, θ, φ)  # type: ignore
-        return 1 / self.radius + correction / self.radius**2  # type: ignore
+        return 1 / self.radius + correction / self.radius  # type: ignore
 
     @property
     def volume(self) -> float:
@@ -1270,7 +1270,7 @@ class PerturbedDroplet3DAxisSym(PerturbedDropletBase):
             if a != 0:
                 hl = (order**2 + order - 2) / 2
                 correction += a * hl * Yl(order, θ)  # type: ignore
-        return 1 / self.radius + correction / self.radius**2  # type: ignore
+        return 1 / self.radius + correction / self.radius  # type: ignore
 
     @property
     def volume_approx(self) -> float:
